@@ -106,8 +106,13 @@ def compile_probe(ext, scratch, pid, source, externs=("epserde",), run=False, ti
             def lim():
                 import resource
                 resource.setrlimit(resource.RLIMIT_AS, (12 << 30, 12 << 30))
-            r = subprocess.run([out], capture_output=True, text=True, timeout=timeout, env=ENV, cwd=scratch, preexec_fn=lim)
+            r = subprocess.run([out], capture_output=True, text=True, timeout=timeout, env=dict(ENV, VERIF_PROBE_SINK=os.path.join(scratch, f"{fname}.sink")), cwd=scratch, preexec_fn=lim)
             res.update(ran=True, exit=r.returncode, stdout=r.stdout[-200000:], run_stderr=r.stderr[-2000:])
+            # a probe may leave a file "<name>.sink" behind (what it managed to write before dying)
+            sink = os.path.join(scratch, f"{fname}.sink")
+            if os.path.exists(sink):
+                res["sink_file"] = open(sink, "rb").read()[:1 << 20]
+                os.remove(sink)
         except subprocess.TimeoutExpired:
             res.update(ran=True, exit=-999, stdout="", run_stderr="timeout")
     try:
